@@ -313,6 +313,35 @@ def crash_run(ctx, seed, scenario, cut):
     return fails
 
 
+def crash_after_history(ctx, label, actions, conf, seed):
+    """After a history with a misbehaving but authenticated peer (or differing configurations) the network dies for
+    good: each endpoint sees its peer as crashed and must have removed every kernel SA within DPD interval +
+    retransmission budget - whatever the peer had made it accept before."""
+    rep = {'kind': 'crash-after', 'label': label, 'actions': actions, 'conf': conf, 'seed': seed}
+    conf = dict(conf)
+    conf['dpd'] = 10
+    with Pair(seed=seed, **conf) as p:
+        try:
+            p.run(actions)
+            p.sim.net.clear()
+            bound = 10 + 30 + 5
+            for _ in range(bound):
+                p.do(['tick', 1])
+                p.sim.net.clear()
+            ctx.case({'kind': 'crash-after', 'label': label}, nontrivial=True)
+            ctx.count('crash-after-deviant-history')
+            for n in 'AB':
+                ep = p.ep(n)
+                if ep.kernel.sad:
+                    owners = [(int(x.state), len(x.child_sas)) for x in ep.controller.ike_sas]
+                    return [Failure('property', 'crash:kernel-sas-left',
+                                    f'{label}: {len(ep.kernel.sad)} kernel SA(s) still installed at {n} {bound} s after the '
+                                    f'peer vanished; IKE_SAs (state, CHILD_SAs): {owners}', rep)]
+        except LoopEscape as ex:
+            return [Failure('property', 'loop:escaped-exception', f'{label}: {ex.exc!r}', rep)]
+    return []
+
+
 def correspond(ctx):
     results = []
     fails = []
@@ -357,6 +386,10 @@ def oracle(ctx, deep):
                 fails += crash_run(ctx, ctx.rng.getrandbits(32), s, cut)
         if len(fails) > 4:
             break
+    for label, acts, conf, seed, skip in hdl.deviant_set(deep, ctx.seed):
+        if len(fails) > 4:
+            break
+        fails += crash_after_history(ctx, label, acts, conf, seed)
     return fails
 
 
@@ -368,6 +401,8 @@ def regressions(ctx):
 
 
 def replay(ctx, obj):
+    if obj.get('kind') == 'crash-after':
+        return crash_after_history(ctx, obj['label'], obj['actions'], obj['conf'], obj['seed'])
     if obj.get('kind') == 'timers':
         return timers_run(ctx, obj['seed'])
     if obj.get('kind') == 'hard-deadline':
